@@ -32,9 +32,12 @@ import (
 type BodyKind string
 
 const (
-	BodyPlain     BodyKind = "plain"     // printable text, no trailing EOL
-	BodyBinary    BodyKind = "binary"    // arbitrary bytes (EOLs replaced so that no line-initial digits occur)
-	BodyEOL       BodyKind = "eol"       // ends in \n, \r or \r\n
+	BodyPlain  BodyKind = "plain"  // printable text, no trailing EOL
+	BodyBinary BodyKind = "binary" // arbitrary bytes (EOLs replaced so that no line-initial digits occur)
+	BodyEOL    BodyKind = "eol"    // ends in \n, \r\n or \n\n
+	// BodyCR ends in a bare \r.  Followed by the Writer's "\nendstream" this
+	// cannot be told from a CR LF end-of-line marker once /Length is unknown.
+	BodyCR        BodyKind = "cr"
 	BodyEndstream BodyKind = "endstream" // contains the word endstream in the middle of a line
 	// BodyEOLEndstream contains EOL+"endstream" (also followed by EOL+"endobj").
 	// With a wrong or missing /Length such a body cannot be told from the end
@@ -48,7 +51,7 @@ const (
 )
 
 // AllBodies lists every body kind.
-var AllBodies = []BodyKind{BodyPlain, BodyBinary, BodyEOL, BodyEndstream, BodyEOLEndstream, BodyEndobj, BodyMidHeader, BodyEmpty, BodyBig}
+var AllBodies = []BodyKind{BodyPlain, BodyBinary, BodyEOL, BodyCR, BodyEndstream, BodyEOLEndstream, BodyEndobj, BodyMidHeader, BodyEmpty, BodyBig}
 
 // AllFilters lists the filter names DocOptions.Filters understands.
 var AllFilters = []string{"Flate", "LZW", "ASCIIHex", "ASCII85", "RunLength"}
@@ -602,7 +605,9 @@ func (g *valGen) body(k BodyKind, max int) []byte {
 		b = make([]byte, n)
 		g.rng.Read(b)
 	case BodyEOL:
-		b = append(text(n+1), []string{"\n", "\r", "\r\n", "\n\n"}[g.rng.Intn(4)]...)
+		b = append(text(n+1), []string{"\n", "\r\n", "\n\n"}[g.rng.Intn(3)]...)
+	case BodyCR:
+		b = append(text(n+1), '\r')
 	case BodyEndstream:
 		b = append(text(n/2+1), []string{"endstream", "x endstream endobj", "endstream\nendobj\n"}[g.rng.Intn(3)]...)
 		b = append(b, text(n/2+1)...)
